@@ -113,6 +113,9 @@ class RallyRepository:
             raise exceptions.DataError("Cannot update %s in [%s] (%s)." % (self.resource_name, self.repo_dir, e.message)).with_traceback(tb)
 
     def _find_matching_tag(self, distribution_version):
+        # an unknown version (none given, serverless) has no version tag; the caller reports that nothing has been found
+        if not versions.is_version_identifier(distribution_version):
+            return None
         tags = git.tags(self.repo_dir)
         for version in versions.variants_of(distribution_version):
             # tags have a "v" prefix by convention.
